@@ -134,7 +134,14 @@ def gen_hist(rng, idx):
             ev.append(["view", rng.choice(tensors), rng.choice(["all", "head", "ell"])])
             tensors.append(tn)
         elif k < 0.72 and tensors:
-            ev.append([rng.choice(["inplace", "iadd"]), rng.choice(tensors)])
+            r2 = rng.random()
+            if r2 < 0.5:
+                ev.append([rng.choice(["inplace", "iadd"]), rng.choice(tensors)])
+            elif r2 < 0.8:
+                # in-place tensor operations whose OPERAND is a caller array (possibly natively read-only): t[...] = a, t *= a, mg.add(a, 1, out=t)
+                ev.append([rng.choice(["setitem_arr", "imul_arr", "out_tensor"]), rng.choice(tensors), rng.choice(arrays)])
+            else:
+                ev.append(["setshape", rng.choice(tensors)])
         elif k < 0.79 and tensors:
             ev.append(["backward", rng.choice(tensors)])
         elif k < 0.83 and tensors:
